@@ -50,6 +50,11 @@ var c09Placements = []string{
 	"m{%A} * ignoring (b) n{%B}",
 	"count(m{%A}) by (a) / on (a) group_left () count(m{%B}) by (a, b)",
 	"-m{%A} + n{%B}",
+	// modifiers on the rewritten selector (data has samples at Base-30s and Base, evaluation at Base+5s)
+	"m{%A} @ 3580 + m{%B}",
+	"m{%A} offset 20s - m{%B}",
+	"m{%A} @ 3580 offset -5s + ignoring (b) group_left () m{%B} @ 3610",
+	"sum(m{%A} offset 20s) by (a) + on (a) sum(m{%B} @ 3580) by (a)",
 }
 
 // c09Data: every label-presence combination (absent/1/2/3) of a and b for metrics m and n.
